@@ -585,6 +585,14 @@ func mkNodeHeightBound(c *core.Ctx, ctor, mk *ssa.Function) {
 		}
 		n++
 		r := p.Results[0]
+		if r.Op == "alloc" && len(p.Results) == 1 {
+			// the constructor hands back the node alone: its height is the length its finger slice is made with
+			if lit := p.End.MemAt(r); lit != nil {
+				if fv := fieldOf2(lit, fFingers); fv != nil && fv.Op == "mkslice" && len(fv.Args) > 0 {
+					r = fv.Args[0]
+				}
+			}
+		}
 		if k, isK := r.IntConst(); isK && k <= 0 {
 			continue
 		}
